@@ -18,6 +18,8 @@ structure St where
   lostKf : List (String × String) := []
   /-- a `NeedsTable` call held between its two reads: instance and table -/
   ask : Option (Nat × Path) := none
+  /-- per instance, parallel to its `snaps`: is the snapshot a held scan iterator -/
+  scans : List (List Bool) := []
 
 def sortStr (xs : List String) : List String := (xs.toArray.qsort (· < ·)).toList
 
@@ -255,14 +257,29 @@ def step (st : St) (ws : List String) : St × String :=
         let model := "ok deleted=" ++ joinC (sortStr gone)
         let spec := "ok deleted=" ++ joinC (sortStr (gone.filter (fun p => !bad.contains p)))
         ({ st with s := s' }, withSpec model spec "")
-  | ["snap", i] =>
-    match Files.step st.s (.snap (natOr i)) with
+  | "snap" :: i :: rest =>
+    -- a reader's level list, or (`snap i scan`) a held scan iterator: both pin the tables of the level list
+    let i := natOr i
+    let isScan := !rest.isEmpty
+    let cur := match st.s.insts[i]? with
+      | some x => uris x.current
+      | none => []
+    if isScan && aliveAt st i && cur.any (fun u => !st.s.files.contains (.sst u)) then (st, "files-missing") else
+    match Files.step st.s (.snap i) with
     | none => (st, "not-alive")
-    | some s' => ({ st with s := s' }, "ok")
+    | some s' =>
+      let pad := st.scans ++ List.replicate (i + 1 - st.scans.length) []
+      ({ st with s := s', scans := pad.set i (isScan :: pad.getD i []) }, "ok")
   | ["unsnap", i, k] =>
+    let pinned := match st.s.insts[natOr i]? with
+      | some x => uris (x.snaps.getD (natOr k) [])
+      | none => []
+    let isScan := (st.scans.getD (natOr i) []).getD (natOr k) false
     match Files.step st.s (.unsnap (natOr i) (natOr k)) with
     | none => (st, "not-alive")
-    | some s' => ({ st with s := s' }, "ok")
+    | some s' =>
+      ({ st with s := s', scans := st.scans.set (natOr i) ((st.scans.getD (natOr i) []).eraseIdx (natOr k)) },
+        if isScan && pinned.any (fun u => !st.s.files.contains (.sst u)) then "files-missing" else "ok")
   | ["crash", i] =>
     match Files.step st.s (.crash (natOr i)) with
     | none => (st, "not-alive")
